@@ -37,7 +37,7 @@ fn reply_case(out: &mut Out, v: &RespValue, what: &str) {
     let enc = impl_encode(v);
     let o = decode_obs(&enc);
     let human = format!("{} reply={:?} encoded=\"{}\" -> {}", what, v, show(&enc), show_obs(&o));
-    let g = format!("CReply ({}) {} {}", g_rv(v), g_bytes(&enc), g_obs(&o));
+    let g = format!("CReply ({}) {} {}", g_rv(v), gb(&enc), g_obs(&o));
     let dirty = !is_clean(v);
     let i = out.case(g, human.clone(), true);
     out.count("replies");
